@@ -52,17 +52,19 @@ def needs_statement_inlining(d: ast.FunctionDef) -> bool:
 class Normalizer:
     def __init__(self, model: Model):
         self.model = model
-        self._cache: Dict[Tuple[int, bool], List[ast.stmt]] = {}
+        self._cache: Dict[tuple, List[ast.stmt]] = {}
 
     # ------------------------------------------------------------------------------------------
-    def body(self, fn: Optional[FunctionInfo], d: ast.AST, local_names: Optional[Set[str]] = None, loop_view: bool = False) -> List[ast.stmt]:
+    def body(self, fn: Optional[FunctionInfo], d: ast.AST, local_names: Optional[Set[str]] = None, loop_view: bool = False,
+             keep: frozenset = frozenset()) -> List[ast.stmt]:
         """``loop_view``: additionally spell every list comprehension that calls a private helper (pure or not) as the loop it abbreviates, with
         the helper call hoisted -- for rules that read the steps of the helper's body."""
-        key = (id(d), loop_view)
+        key = (id(d), loop_view, keep)
         if key not in self._cache:
             ctx = _Ctx(self.model, fn, set(local_names or ()))
             ctx.root = d
             ctx.loop_view = loop_view
+            ctx.keep = keep          # qualified names of functions that are read on their own (never unfolded / hoisted here)
             self._cache[key] = ctx.block(list(d.body))
         return self._cache[key]
 
@@ -108,7 +110,35 @@ class _Ctx:
 
     _closure_defs: Dict[str, ast.FunctionDef] = {}
 
+    def generator_def(self, call: ast.Call) -> Optional[ast.FunctionDef]:
+        """a generator function of the package that is statically the callee (``self.gen(..)``, ``Cls.gen(..)``, module-level ``gen(..)``), public
+        or not: its body can only be read where it is consumed"""
+        f = call.func
+        d = None
+        if isinstance(f, ast.Name) and self.fn is not None:
+            tgt = self.model.lookup_symbol(self.fn.module, f.id)
+            if isinstance(tgt, FunctionInfo):
+                d = tgt.node
+        elif isinstance(f, ast.Attribute) and isinstance(f.value, ast.Name) and self.fn is not None:
+            c: Optional[ClassInfo] = None
+            if self.fn.cls is not None and f.value.id in (self.fn.self_name, "cls"):
+                c = self.fn.cls
+            else:
+                tgt = self.model.lookup_symbol(self.fn.module, f.value.id)
+                if isinstance(tgt, ClassInfo):
+                    c = tgt
+            if c is not None:
+                fs = c.resolve_all(f.attr)
+                if len(fs) == 1 and fs[0].kind in ("method", "staticmethod", "classmethod"):
+                    d = fs[0].node
+        if d is not None and any(isinstance(n, (ast.Yield, ast.YieldFrom)) for n in ast.walk(d)) and d is not (self.fn.node if self.fn else None):
+            if any(k.split(".")[-1] == d.name for k in self.keep):
+                return None
+            return d
+        return None
+
     loop_view = False
+    keep: frozenset = frozenset()
 
     def must_run_in_place(self, call: ast.Call) -> bool:
         d = self.helper_def(call)
@@ -391,7 +421,7 @@ class _Ctx:
         it = st.iter
         if not isinstance(it, ast.Call) or st.orelse:
             return None
-        d = self.helper_def(it)
+        d = self.helper_def(it) or self.generator_def(it)
         if d is None or not any(isinstance(n, ast.Yield) for n in ast.walk(d)):
             return None
         if any(isinstance(n, (ast.YieldFrom, ast.Return, ast.Try, ast.With)) for n in ast.walk(d)):
